@@ -622,8 +622,14 @@ static void run_reuse(vfh::Reporter &R, long seed, long shard, long nseq, long o
       else if (k == 1 && had_success) kind = r.coin(0.7) ? 1 : (int)r.range(0, 4);
       else kind = (int)r.range(0, 4);
       if (kind == 2 && hard < 0) kind = 1;
+      // kind 5: ANOTHER matrix of exactly the dimension of the previous solve (anything the object caches per
+      // dimension - the operator diagonal, the guess, the search space - must be rebuilt for the new operator)
+      long prev_n = -1;
+      if (k > 0 && !mats.empty() && !mats.back().ham) prev_n = mats.back().n;
+      if (prev_n >= 8 && r.coin(0.45)) kind = 5;
       size_t mi;
-      if (kind == 0 || kind == 3) { mats.push_back(gen_symm(r, kind == 0 ? r.range(8, 120) : r.range(4, 160), 0)); mi = mats.size() - 1; }
+      if (kind == 5) { mats.push_back(gen_symm(r, prev_n, 0)); mi = mats.size() - 1; }
+      else if (kind == 0 || kind == 3) { mats.push_back(gen_symm(r, kind == 0 ? r.range(8, 120) : r.range(4, 160), 0)); mi = mats.size() - 1; }
       else if (kind == 1) { if (hard < 0 || r.coin(0.3)) { mats.push_back(gen_symm(r, r.range(40, 140), r.coin() ? 1 : 2)); hard = (long)mats.size() - 1; } mi = (size_t)hard; }
       else if (kind == 2) mi = (size_t)hard;
       else { mats.push_back(gen_ham(r, r.range(4, 40))); mi = mats.size() - 1; }
@@ -639,7 +645,7 @@ static void run_reuse(vfh::Reporter &R, long seed, long shard, long nseq, long o
         long hi = std::max(c.neigen, m.n - upd);
         if ((c.max_space == 0 ? 5 * c.neigen : c.max_space) > hi || c.max_space < 0) c.max_space = r.range(c.neigen, hi);
       }
-      static const char *KN[] = {"easy_diagonally_dominant", "iteration_limit_too_small", "same_matrix_generous_limit", "other_size", "bse_form"};
+      static const char *KN[] = {"easy_diagonally_dominant", "iteration_limit_too_small", "same_matrix_generous_limit", "other_size", "bse_form", "other_matrix_of_the_same_size"};
       seqj += std::string(k ? "," : "") + J().i("step", k).s("kind", KN[kind]).raw("matrix", mat_witness(m)).raw("options", cjson(c)).str();
       std::string seq_now = seqj + "]";
       vfh::set_case(J().s("replay", rps).raw("sequence", seq_now).str());
